@@ -17,7 +17,8 @@
 
    [c03_run_matches_reference]: when the call has finished, the events recorded are exactly the events of the
    reference run (as a set: an event re-emitted after an interruption carries the same run, stream, seq_num AND
-   data), the RunStop documents are those of the reference run in the same order, and nothing failed.
+   data), the documents that open and close runs (RunStart, RunStop with exit status, reason, num_events) are those of the
+   reference run in the same order, and nothing failed.
    [c03_data_equivalence]: hence any two such executions -- in particular an interrupted and the uninterrupted
    one -- recorded the same (run, stream, seq_num) -> data map and the same RunStops.
    [c03_every_prefix_safe]: at every moment of such an execution only events of the reference run have been
@@ -31,6 +32,13 @@ Proof.
   intros d x. unfold ty_dev. destruct (match nth_error ledger d with Some r => r | None => DUnit end) as [z|sid ok|e|];
     repeat split; try (do 3 eexists; reflexivity); try (do 2 eexists; reflexivity); intros e0; cbn; discriminate.
 Qed.
+
+Lemma stops_of_rundocs o : stops o = doc_stops (rundocs o).
+Proof.
+  induction o as [|x o IH]; [reflexivity|]. destruct x; try exact IH. destruct d; cbn; try exact IH; unfold stops, rundocs in IH; rewrite IH; reflexivity.
+Qed.
+Lemma doc_stops_of_rundocs l : doc_stops (doc_rundocs l) = doc_stops l.
+Proof. induction l as [|d l IH]; [reflexivity|]. destruct d; cbn; try exact IH; unfold doc_stops, doc_rundocs in IH; rewrite IH; reflexivity. Qed.
 
 Section Statements.
 Variable P : Type.
@@ -64,12 +72,14 @@ Let r := run P presume plan_of D dev (init P D d paus stag false) (EvMain (ACall
 
 Theorem c03_run_matches_reference :
   sched_ok P presume plan_of D dev s0 evs = true -> reads_ok rdm None (snd r) = true -> finished P D (fst r) = true ->
-  (forall x, In x (final_events (snd r)) <-> In x (doc_events SD)) /\ stops (snd r) = doc_stops SD /\ no_raise (snd r) = true.
+  (forall x, In x (final_events (snd r)) <-> In x (doc_events SD)) /\ rundocs (snd r) = doc_rundocs SD /\
+  stops (snd r) = doc_stops SD /\ no_raise (snd r) = true.
 Proof.
   intros Hs Hr Hf. destruct spec_docs_arun as (afin & HL & Hfin).
   destruct (call_complete P presume plan_of D dev rk rdm rv pid L afin SD HL Hfin Hdev Hfol d paus stag evs Hs Hr Hf)
     as (D1 & D2 & D3 & D4).
-  split; [intros x; split; [apply D1 | apply D2] | split; assumption].
+  split; [intros x; split; [apply D1 | apply D2]|]. split; [exact D3|]. split; [|exact D4].
+  rewrite stops_of_rundocs. unfold call_run in D3. subst r. rewrite D3. apply doc_stops_of_rundocs.
 Qed.
 
 Theorem c03_every_prefix_safe :
@@ -97,12 +107,13 @@ Theorem c03_data_equivalence
   reads_ok rdm None (snd r1) = true -> reads_ok rdm None (snd r2) = true ->
   finished P D1 (fst r1) = true -> finished P D2 (fst r2) = true ->
   (forall x, In x (final_events (snd r1)) <-> In x (final_events (snd r2))) /\
-  stops (snd r1) = stops (snd r2) /\ no_raise (snd r1) = true /\ no_raise (snd r2) = true.
+  rundocs (snd r1) = rundocs (snd r2) /\ stops (snd r1) = stops (snd r2) /\ no_raise (snd r1) = true /\ no_raise (snd r2) = true.
 Proof.
   intros Hspec Hfol Hd1 Hd2 r1 r2 Hs1 Hs2 Hr1 Hr2 Hf1 Hf2.
   destruct (c03_run_matches_reference P presume plan_of rk rdm rv pid L SD Hspec Hfol D1 dev1 Hd1 d1 paus1 stag1 evs1 Hs1 Hr1 Hf1)
-    as (A1 & A2 & A3).
+    as (A1 & A2 & A2' & A3).
   destruct (c03_run_matches_reference P presume plan_of rk rdm rv pid L SD Hspec Hfol D2 dev2 Hd2 d2 paus2 stag2 evs2 Hs2 Hr2 Hf2)
-    as (B1 & B2 & B3).
-  split; [intros x; subst r1 r2; split; intros H; [apply B1, A1, H | apply A1, B1, H]|]. split; [subst r1 r2; rewrite A2, B2; reflexivity | split; assumption].
+    as (B1 & B2 & B2' & B3).
+  split; [intros x; subst r1 r2; split; intros H; [apply B1, A1, H | apply A1, B1, H]|].
+  split; [subst r1 r2; rewrite A2, B2; reflexivity|]. split; [subst r1 r2; rewrite A2', B2'; reflexivity | split; assumption].
 Qed.
